@@ -799,7 +799,7 @@ class DoIPTransport(BaseTransport, scheme="doip"):
             target_addr,
             protocol_version=protocol_version,
         )
-        await conn.write_routing_activation_request(RoutingActivationRequestTypes(activation_type))
+        await conn.write_routing_activation_request(activation_type)
         return conn
 
     @classmethod
